@@ -1404,7 +1404,11 @@ def typearg_cases(jobs):
             for i, t in enumerate(m["pos"]):
                 if t.get("k") == "union":
                     # a union whose arms are type[...] annotations
-                    params.append(f"p{i + 1}: " + " | ".join(f"type[E{a['c']}]" for a in t["args"]))
+                    arms = [f"type[E{a['c']}]" for a in t["args"]]
+                    if t.get("litarm"):
+                        # one more arm that no passed object satisfies: a Literal (a value-dependent member next to type[...] arms)
+                        arms.insert(t["litarm"] - 1, "typing.Literal['zz']")
+                    params.append(f"p{i + 1}: typing.Union[" + ", ".join(arms) + "]")
                     continue
                 n = t["c"]
                 if n == 1:
